@@ -38,6 +38,11 @@ static ALLOCS: AtomicUsize = AtomicUsize::new(0);
 /// live blocks (allocated, not yet released), and the first layout mismatch / release of a dead block seen (C03, C06)
 static LIVE_BLOCKS: std::sync::atomic::AtomicIsize = std::sync::atomic::AtomicIsize::new(0);
 static LAYOUT_MISMATCH: AtomicUsize = AtomicUsize::new(0);
+/// while set, released blocks of alignment >= 64 (the shared waker allocations) are marked dead but not handed back to the
+/// system: a premature release followed by further use or by a second release is then observed instead of corrupting the heap
+/// live blocks of alignment >= 64 (the shared waker allocations are the only ones in this program)
+static LIVE_BIG: std::sync::atomic::AtomicIsize = std::sync::atomic::AtomicIsize::new(0);
+static QUARANTINE: std::sync::atomic::AtomicBool = std::sync::atomic::AtomicBool::new(false);
 static MISMATCH_INFO: [AtomicUsize; 4] = [AtomicUsize::new(0), AtomicUsize::new(0), AtomicUsize::new(0), AtomicUsize::new(0)];
 const HDR_MAGIC: usize = 0x5EED_A110_C0DE_0001;
 const HDR_DEAD: usize = 0xDEAD_A110_C0DE_0002;
@@ -55,6 +60,7 @@ unsafe impl std::alloc::GlobalAlloc for CountAlloc {
         let h = p.sub(24) as *mut usize;
         h.write(HDR_MAGIC); h.add(1).write(l.size()); h.add(2).write(l.align());
         LIVE_BLOCKS.fetch_add(1, Ordering::Relaxed);
+        if l.align() >= 64 { LIVE_BIG.fetch_add(1, Ordering::Relaxed); }
         p
     }
     unsafe fn dealloc(&self, p: *mut u8, l: std::alloc::Layout) {
@@ -69,6 +75,8 @@ unsafe impl std::alloc::GlobalAlloc for CountAlloc {
         }
         h.write(HDR_DEAD);
         LIVE_BLOCKS.fetch_sub(1, Ordering::Relaxed);
+        if align >= 64 { LIVE_BIG.fetch_sub(1, Ordering::Relaxed); }
+        if align >= 64 && QUARANTINE.load(Ordering::Relaxed) { return; }
         let off = hdr_off(align);
         std::alloc::System.dealloc(p.sub(off), std::alloc::Layout::from_size_align_unchecked(size + off, align.max(8)))
     }
@@ -125,6 +133,8 @@ struct ChildSt {
     done_seq: Cell<usize>,
     /// the child panics when it is polled (C06: unwinding through a combinator must not lose or double-drop anything)
     panic_on_poll: Cell<bool>,
+    /// the destructor of the child's output panics (once)
+    panic_on_out_drop: Cell<bool>,
 }
 type St = Rc<ChildSt>;
 
@@ -135,6 +145,10 @@ struct Out {
 impl Drop for Out {
     fn drop(&mut self) {
         self.st.out_dropped.set(self.st.out_dropped.get() + 1);
+        if self.st.panic_on_out_drop.get() && !std::thread::panicking() {
+            self.st.panic_on_out_drop.set(false);
+            panic!("scripted panic in the destructor of an output");
+        }
     }
 }
 struct Fut {
@@ -1079,6 +1093,45 @@ fn run_quiescence(prop: &'static str) {
         }
     }
 }
+/// C14, second sentence: between polls the task waker is invoked only as a consequence of a child waker being invoked - so
+/// not by a push, whatever group boundary (32, 96, 224 children) the push crosses.
+fn run_push_is_silent(prop: &'static str) {
+    if prop != "C14" {
+        return;
+    }
+    for kind in 0..6usize {
+        let tw = Arc::new(CountWaker(AtomicUsize::new(0)));
+        let waker = Waker::from(tw.clone());
+        let mut cx = Context::from_waker(&waker);
+        let mut coll = match kind {
+            0 => Some(Coll::Fub(FuturesUnorderedBounded::new(240))),
+            1 => Some(Coll::Fu(FuturesUnordered::new())),
+            2 => Some(Coll::Fob(FuturesOrderedBounded::new(240))),
+            3 => Some(Coll::Fo(FuturesOrdered::new())),
+            _ => None,
+        };
+        let mut mu: MergeUnbounded<Src> = MergeUnbounded::new();
+        let mut rng = Rng(9);
+        let name = match (&coll, kind) { (Some(c), _) => c.name().to_string(), (None, 4) => "MergeUnbounded".to_string(), _ => "MergeUnbounded (polled only once at the start)".to_string() };
+        let mut keep = vec![];
+        for k in 0..230usize {
+            let before = tw.0.load(Ordering::SeqCst);
+            match &mut coll {
+                Some(c) => { let st: St = Rc::new(ChildSt::default()); keep.push(st.clone()); if c.push_back(Fut::new(k, st)).is_err() { break; } }
+                None => { let (src, st) = mk_src(k, &mut rng); st.script.borrow_mut().clear(); for _ in 0..4000 { st.script.borrow_mut().push_back(Up::Pending); } mu.push(src); }
+            }
+            if tw.0.load(Ordering::SeqCst) > before {
+                report(&Fail { prop, scenario: format!("{name}: sleeping children pushed one at a time, the collection polled to a quiet Pending in between"), history: vec![format!("(push; poll x4) x{k}"), "push".into()],
+                    what: format!("push #{} invoked the task waker although no child waker was invoked", k + 1) });
+            }
+            if kind != 5 || k == 0 {
+                for _ in 0..4 {
+                    let _ = match &mut coll { Some(c) => c.poll(&mut cx).is_pending(), None => Pin::new(&mut mu).poll_next(&mut cx).is_pending() };
+                }
+            }
+        }
+    }
+}
 /// C14 for merges and adapters: everything held sleeps, nobody wakes anybody: a quiet Pending within held + 2 polls.
 fn run_quiescence_wrappers(prop: &'static str) {
     if prop != "C14" {
@@ -1149,6 +1202,66 @@ fn run_quiescence_wrappers(prop: &'static str) {
                         history: trail.iter().rev().take(6).rev().cloned().collect(), what: format!("after {} polls the adapter still wakes its task on every poll although everything it holds sleeps", jobs + 8) });
                 }
             }
+        }
+    }
+}
+/// C08 for the adapters: an adapter over an `Unpin` upstream is itself `Unpin`, so safe code may move it between polls (into a
+/// Box, a Vec, another variable).  The futures it holds have been polled and must stay where they are.
+fn run_adapter_moved(prop: &'static str) {
+    if prop != "C08" {
+        return;
+    }
+    let tw = Arc::new(CountWaker(AtomicUsize::new(0)));
+    let waker = Waker::from(tw.clone());
+    let mut cx = Context::from_waker(&waker);
+    fn check(prop: &'static str, name: &str, n: usize, ust: &Rc<UpSt>) {
+        let moved: Vec<usize> = ust.children.borrow().iter().enumerate().filter(|(_, c)| c.moved.get()).map(|(i, _)| i).collect();
+        if !moved.is_empty() {
+            report(&Fail { prop, scenario: format!("{name}({n}) over an Unpin upstream: polled, moved into a Box, polled again, moved back out and dropped"), history: vec!["poll".into(), "Box::new(adapter)".into(), "poll x2".into(), "*boxed (move out); drop".into()],
+                what: format!("job(s) {moved:?} were polled (or dropped) at a different address than the one they were first polled at") });
+        }
+    }
+    for n in 1..=3usize {
+        let script = [Up::Item, Up::Item, Up::Item, Up::Pending, Up::Pending, Up::Pending, Up::Pending, Up::Pending, Up::Pending];
+        {
+            let (u, ust) = upstream(&script, Box::new(move |id, c| Fut::new(id, c)));
+            let mut s = u.buffered_ordered(n);
+            let _ = Pin::new(&mut s).poll_next(&mut cx).is_pending();
+            let mut b = Box::new(s);
+            for _ in 0..2 { let _ = Pin::new(&mut *b).poll_next(&mut cx).is_pending(); }
+            let s2 = *b;
+            drop(s2);
+            check(prop, "buffered_ordered", n, &ust);
+        }
+        {
+            let (u, ust) = upstream(&script, Box::new(move |id, c| Fut::new(id, c)));
+            let mut s = u.buffered_unordered(n);
+            let _ = Pin::new(&mut s).poll_next(&mut cx).is_pending();
+            let mut b = Box::new(s);
+            for _ in 0..2 { let _ = Pin::new(&mut *b).poll_next(&mut cx).is_pending(); }
+            let s2 = *b;
+            drop(s2);
+            check(prop, "buffered_unordered", n, &ust);
+        }
+        {
+            let (u, ust) = upstream(&script, Box::new(move |id, c: St| Ok::<TFut, usize>(TFut(Fut::new(id, c)))));
+            let mut s = u.try_buffered_ordered(n);
+            let _ = Pin::new(&mut s).poll_next(&mut cx).is_pending();
+            let mut b = Box::new(s);
+            for _ in 0..2 { let _ = Pin::new(&mut *b).poll_next(&mut cx).is_pending(); }
+            let s2 = *b;
+            drop(s2);
+            check(prop, "try_buffered_ordered", n, &ust);
+        }
+        {
+            let (u, ust) = upstream(&script, Box::new(move |id, c: St| Ok::<TFut, usize>(TFut(Fut::new(id, c)))));
+            let mut s = u.try_buffered_unordered(n);
+            let _ = Pin::new(&mut s).poll_next(&mut cx).is_pending();
+            let mut b = Box::new(s);
+            for _ in 0..2 { let _ = Pin::new(&mut *b).poll_next(&mut cx).is_pending(); }
+            let s2 = *b;
+            drop(s2);
+            check(prop, "try_buffered_unordered", n, &ust);
         }
     }
 }
@@ -1502,9 +1615,96 @@ fn run_join_big_and_lying(prop: &'static str) {
         }
     }
 }
+/// join_all / try_join_all cancelled: every input and every output produced so far is dropped exactly once (C06), and neither
+/// the polls nor the drop allocate (C18).  Sizes around powers of two and round numbers (natural values for a yield budget).
+fn run_join_cancel(prop: &'static str) {
+    if prop != "C06" && prop != "C18" {
+        return;
+    }
+    let tw = Arc::new(CountWaker(AtomicUsize::new(0)));
+    let waker = Waker::from(tw.clone());
+    let mut cx = Context::from_waker(&waker);
+    let sizes: [usize; 22] = [3, 16, 64, 100, 127, 128, 129, 255, 256, 257, 500, 511, 512, 513, 1000, 1023, 1024, 1025, 2047, 2048, 2049, 4096];
+    for try_variant in [false, true] {
+        for &n in &sizes {
+            for ready_every in [1usize, 2] {
+                for polls in 1..=2usize {
+                    if n > 600 && ready_every == 2 && polls == 2 { continue; }
+                    let sts: Vec<St> = (0..n).map(|i| { let s: St = Rc::new(ChildSt::default()); s.ready.set(i % ready_every == 0); s }).collect();
+                    let scenario = format!("{}: {n} inputs, every {} ready; polled {polls} time(s), then dropped", if try_variant { "try_join_all" } else { "join_all" }, if ready_every == 1 { "one".to_string() } else { "second one".to_string() });
+                    let mut resolved = false;
+                    let mut a = 0usize;
+                    if try_variant {
+                        let mut j = Box::pin(try_join_all(sts.iter().enumerate().map(|(i, s)| TFut(Fut::new(i, s.clone()))).collect::<Vec<_>>()));
+                        for _ in 0..polls { let b = ALLOCS.load(Ordering::Relaxed); let r = j.as_mut().poll(&mut cx); a += ALLOCS.load(Ordering::Relaxed) - b; if let Poll::Ready(r) = r { resolved = true; drop(r); break; } }
+                        let b = ALLOCS.load(Ordering::Relaxed); drop(j); a += ALLOCS.load(Ordering::Relaxed) - b;
+                    } else {
+                        let mut j = Box::pin(join_all(sts.iter().enumerate().map(|(i, s)| Fut::new(i, s.clone())).collect::<Vec<_>>()));
+                        for _ in 0..polls { let b = ALLOCS.load(Ordering::Relaxed); let r = j.as_mut().poll(&mut cx); a += ALLOCS.load(Ordering::Relaxed) - b; if let Poll::Ready(r) = r { resolved = true; drop(r); break; } }
+                        let b = ALLOCS.load(Ordering::Relaxed); drop(j); a += ALLOCS.load(Ordering::Relaxed) - b;
+                    }
+                    for s in &sts { s.waker.borrow_mut().take(); }
+                    let hist = vec![format!("poll x{polls}{}; drop", if resolved { " (resolved)" } else { "" })];
+                    if prop == "C06" {
+                        let fut_bad = sts.iter().enumerate().find(|(_, s)| s.dropped.get() != 1).map(|(i, s)| (i, s.dropped.get()));
+                        let out_bad = sts.iter().enumerate().find(|(_, s)| s.out_dropped.get() != s.done.get() as usize).map(|(i, s)| (i, s.out_dropped.get()));
+                        if let Some((i, d)) = fut_bad {
+                            report(&Fail { prop, scenario, history: hist, what: format!("input {i} was dropped {d} times") });
+                        }
+                        if let Some((i, d)) = out_bad {
+                            let total: usize = sts.iter().filter(|s| s.done.get() && s.out_dropped.get() == 0).count();
+                            report(&Fail { prop, scenario, history: hist, what: format!("the output of input {i} was dropped {d} times ({total} produced outputs were never dropped)") });
+                        }
+                    }
+                    // a resolved join hands out its Vec (built from the buffer it allocated at construction); nothing else may allocate
+                    if prop == "C18" && a > 0 {
+                        report(&Fail { prop, scenario, history: hist, what: format!("{a} heap allocation(s) after construction (polls and drop)") });
+                    }
+                }
+            }
+        }
+    }
+}
 fn run_join_special(prop: &'static str) {
     if prop == "C07" || prop == "C06" || prop == "C04" {
         run_join_big_and_lying(prop);
+    }
+    run_join_cancel(prop);
+    if prop == "C07" {
+        // the destructor of a collected Ok value panics while the error path releases the buffer; the caller catches the unwind
+        // and keeps polling: whatever happens then, the combinator must not resolve to Ok (an input failed, a value is gone)
+        let tw = Arc::new(CountWaker(AtomicUsize::new(0)));
+        let waker = Waker::from(tw.clone());
+        let mut cx = Context::from_waker(&waker);
+        for n in 3..=4usize {
+            for bad_drop in 0..(n - 2) {
+                let sts: Vec<St> = (0..n).map(|_| Rc::new(ChildSt::default())).collect();
+                for i in 0..(n - 2) { sts[i].ready.set(true); }
+                sts[bad_drop].panic_on_out_drop.set(true);
+                sts[n - 2].ready.set(true);
+                sts[n - 2].err.set(true);
+                let scenario = format!("try_join_all: {n} inputs; inputs 0..{} resolve Ok (the destructor of output {bad_drop} panics), input {} fails, the last one is pending; the caller catches the panic, the last input completes, the combinator is polled again", n - 2, n - 2);
+                let mut j = Box::pin(try_join_all(sts.iter().enumerate().map(|(i, s)| TFut(Fut::new(i, s.clone()))).collect::<Vec<_>>()));
+                let first = std::panic::catch_unwind(std::panic::AssertUnwindSafe(|| j.as_mut().poll(&mut cx).map(|r| r.is_ok())));
+                sts[n - 1].ready.set(true);
+                wake_child(&sts[n - 1]);
+                let mut ok_len = None;
+                for _ in 0..3 {
+                    match std::panic::catch_unwind(std::panic::AssertUnwindSafe(|| j.as_mut().poll(&mut cx))) {
+                        Ok(Poll::Ready(Ok(v))) => { ok_len = Some(v.len()); std::mem::forget(v); break; }
+                        Ok(Poll::Ready(Err(_))) => break,
+                        Ok(Poll::Pending) => {}
+                        Err(_) => break,
+                    }
+                }
+                std::mem::forget(j);
+                // (an empty Vec after the error was reported is the fused answer of a finished combinator, not a value)
+                if let Some(len) = ok_len.filter(|l| *l > 0) {
+                    report(&Fail { prop, scenario, history: vec![format!("poll -> {}", match first { Ok(Poll::Ready(true)) => "Ok", Ok(Poll::Ready(false)) => "Err", Ok(Poll::Pending) => "Pending", Err(_) => "panic (caught)" }), "complete the last input".into(), "poll".into()],
+                        what: format!("resolved to Ok(Vec of {len} elements) although input {} failed and the output of input {bad_drop} had already been destroyed", n - 2) });
+                }
+            }
+        }
     }
     if prop == "C07" {
         // a child panics when polled; the caller catches the unwind and keeps using the combinator: it must never resolve,
@@ -2193,6 +2393,52 @@ fn run_waker_lifecycle(prop: &'static str) {
     }
 }
 
+/// C03 / C06: a child panics when polled and the caller survives the unwind: the references to the shared waker allocation
+/// stay balanced (no release while the collection or a waker is alive, exactly one release at the end).
+fn run_waker_panic(prop: &'static str) {
+    if prop != "C03" && prop != "C06" {
+        return;
+    }
+    QUARANTINE.store(true, Ordering::Relaxed);
+    let tw = Arc::new(CountWaker(AtomicUsize::new(0)));
+    for kind in 0..2usize {
+        for cap in [2usize, 3, 5] {
+            for keep in [false, true] {
+                let scenario = format!("{}: {cap} children, the last one panics when polled (the caller catches the unwind); {}", if kind == 0 { "FuturesUnorderedBounded" } else { "FuturesUnordered" }, if keep { "the wakers of its siblings outlive the collection" } else { "no waker is retained" });
+                let live0 = LIVE_BIG.load(Ordering::Relaxed);
+                let mism0 = LAYOUT_MISMATCH.load(Ordering::Relaxed);
+                {
+                    let waker = Waker::from(tw.clone());
+                    let mut cx = Context::from_waker(&waker);
+                    let mut coll = if kind == 0 { Coll::Fub(FuturesUnorderedBounded::new(cap)) } else { Coll::Fu(FuturesUnordered::new()) };
+                    let sts: Vec<St> = (0..cap).map(|i| { let s: St = Rc::new(ChildSt::default()); if i + 1 == cap { s.panic_on_poll.set(true); } s }).collect();
+                    for (i, st) in sts.iter().enumerate() { let _ = coll.push_back(Fut::new(i, st.clone())); }
+                    let _ = std::panic::catch_unwind(std::panic::AssertUnwindSafe(|| { let _ = coll.poll(&mut cx); }));
+                    let mut ws: Vec<Waker> = sts.iter().filter_map(|s| s.waker.borrow_mut().take()).collect();
+                    if !keep { ws.clear(); }
+                    for w in &ws { w.wake_by_ref(); }
+                    let _ = std::panic::catch_unwind(std::panic::AssertUnwindSafe(|| { let _ = coll.poll(&mut cx); }));
+                    for s in &sts { s.waker.borrow_mut().take(); }
+                    let _ = std::panic::catch_unwind(std::panic::AssertUnwindSafe(move || drop(coll)));
+                    for w in &ws { w.wake_by_ref(); }
+                    for w in ws.drain(..) { w.wake(); }
+                }
+                let hist: Vec<String> = vec!["push; poll (the last child panics, caught); take the siblings' wakers".into(), "wake them; poll (caught); drop the collection; wake_by_ref + wake the retained wakers".into()];
+                if LAYOUT_MISMATCH.load(Ordering::Relaxed) > mism0 {
+                    QUARANTINE.store(false, Ordering::Relaxed);
+                    report(&Fail { prop, scenario, history: hist, what: format!("the shared waker allocation was released wrongly: {}", mismatch_text()) });
+                }
+                let leaked = LIVE_BIG.load(Ordering::Relaxed) - live0;
+                if leaked != 0 {
+                    QUARANTINE.store(false, Ordering::Relaxed);
+                    report(&Fail { prop, scenario, history: hist, what: format!("{leaked} shared waker allocation(s) (heap blocks of alignment >= 64) still allocated after the collection and every waker are gone") });
+                }
+            }
+        }
+    }
+    QUARANTINE.store(false, Ordering::Relaxed);
+}
+
 // ------------------------------------------------------------------------------------------------ C18 unbounded family: allocations do not grow with the number of children processed
 /// Steady-state scenarios: the same work repeated at a constant peak population.  After a warm-up (the groups / heaps have
 /// reached the size the peak needs) further cycles must not allocate at all - otherwise the allocation count grows with
@@ -2242,6 +2488,27 @@ fn run_alloc_unbounded(prop: &'static str) {
                 }
             }
         }
+    }
+    // S1b: FuturesOrdered / FuturesUnordered growing one child at a time while outputs are parked behind a blocked head:
+    // allocations logarithmic in the peak (doubling), not one per step
+    for steps in [600usize, 3000] {
+        let mut q: FuturesOrdered<Fut> = FuturesOrdered::new();
+        let head: St = Rc::new(ChildSt::default());
+        q.push_back(Fut::new(0, head.clone()));
+        let mut a = 0usize;
+        for k in 1..=steps {
+            let st: St = Rc::new(ChildSt::default());
+            st.ready.set(k % 2 == 0);
+            let f = Fut::new(k, st);
+            measured!(a, q.push_back(f));
+            for _ in 0..2 { let r = measured!(a, Pin::new(&mut q).poll_next(&mut cx)); drop(r); }
+        }
+        let bound = 6 * (usize::BITS - steps.leading_zeros()) as usize + 16;
+        if a > bound {
+            report(&Fail { prop, scenario: format!("FuturesOrdered: the head never completes, {steps} futures are pushed one at a time (every second one ready, its output is parked), two polls after each push"), history: vec![format!("(push_back; poll x2) x{steps}")],
+                what: format!("{a} allocations for a peak of {} held children (bound used: 6*log2(peak)+16 = {bound}): allocations are not logarithmic in the peak", steps + 1) });
+        }
+        head.waker.borrow_mut().take();
     }
     // S2: FuturesOrdered with a pending head and parked outputs; push_front + poll cycles run the index house-keeping every time
     for parked in [0usize, 2, 5] {
@@ -2569,6 +2836,7 @@ fn main() {
         }
         "C08" => {
             run_address_big(prop);
+            run_adapter_moved(prop);
             run_collections(prop, seed, iters);
             run_join(prop, seed, iters / 2);
             run_adapters(prop, seed, iters / 2);
@@ -2580,6 +2848,7 @@ fn main() {
             run_merge(prop, seed, iters / 2);
         }
         "C14" => {
+            run_push_is_silent(prop);
             run_quiescence(prop);
             run_quiescence_wrappers(prop);
             run_collections(prop, seed, iters);
@@ -2619,10 +2888,12 @@ fn main() {
         }
         "C03" => {
             run_waker_lifecycle(prop);
+            run_waker_panic(prop);
             run_collections(prop, seed, iters / 2);
         }
         "C06" | "C07" => {
             run_waker_lifecycle(prop);
+            run_waker_panic(prop);
             run_join_special(prop);
             run_join(prop, seed, iters);
             run_collections(prop, seed, iters / 4);
@@ -2638,6 +2909,7 @@ fn main() {
         }
         "C18" => {
             run_alloc_unbounded(prop);
+            run_join_cancel(prop);
             run_alloc(prop, seed, iters);
             run_join(prop, seed, iters / 4);
         }
